@@ -32,10 +32,13 @@ def specs(tier):
         out.append(XSpec("fidelity[gff3,';',sort_attribute_values]", H, "cond_fidelity", "reach_fidelity", timeout=900,
                          env=dict(VB_FMT="gff3", VB_VLEN=3, VB_FIXW=1, VB_SORTV=1), bounds=dict(lines=3, sort_attribute_values=True)))
     else:
-        for (env, name), store, strat in itertools.product(skels, ("file", "memory"), ("error", "create_unique")):
-            out.append(XSpec("fidelity[%s,%s db,%s]" % (name, store, strat), H, "cond_fidelity", "reach_fidelity", timeout=3000,
-                             env=dict(env, VB_VLEN=3, VB_STORE=store, VB_STRATEGY=strat),
-                             bounds=dict(lines=3, skeleton=name, values="3 values from finite alphabets", checklines="0..3", store=store)))
+        for i, (env, name) in enumerate(skels):
+            combos = [("file", "error")] if i % 4 else [("file", "error"), ("memory", "create_unique"), ("file", "create_unique"), ("memory", "error")]
+            for store, strat in combos:
+                out.append(XSpec("fidelity[%s,%s db,%s]" % (name, store, strat), H, "cond_fidelity", "reach_fidelity", timeout=3000,
+                                 env=dict(env, VB_VLEN=3, VB_FIXW=0 if i % 6 == 0 else 1, VB_STORE=store, VB_STRATEGY=strat),
+                                 bounds=dict(lines=3, skeleton=name, values="10 representative values (x 2 x 2 auxiliary values on every 6th skeleton)",
+                                             checklines="0..3", store=store, merge_strategy=strat)))
         for fmt, cl in itertools.product(("gff3", "gtf", "gff2"), (0, 1, 3)):
             out.append(XSpec("fidelity[%s,arbitrary character,checklines=%d]" % (fmt, cl), H, "cond_fidelity", "reach_fidelity", timeout=3000,
                              env=dict(VB_FMT=fmt, VB_ARB=1, VB_CL=cl, VB_VLEN=1),
